@@ -191,6 +191,16 @@ type Op struct {
 	FullSave bool       `json:"full_save,omitempty"`
 	Select   []string   `json:"select,omitempty"` // delete: association names, or "*" for clause.Associations
 	Target   uint       `json:"target,omitempty"` // updates: id of the row updated
+	Targets  []uint     `json:"targets,omitempty"` // updates_slice: ids of the rows of the slice model
+	// options
+	Omit      []string `json:"omit,omitempty"`      // create/save/updates: Omit(...)
+	Sel       []string `json:"sel,omitempty"`       // create/save/updates: Select(...)
+	Returning bool     `json:"returning,omitempty"` // updates / delete: Clauses(clause.Returning{})
+	Unscoped  bool     `json:"unscoped,omitempty"`  // delete: Unscoped()
+	NoRet     bool     `json:"no_returning,omitempty"` // the dialector believes the database has no RETURNING (LastInsertID back-fill)
+	Share     bool     `json:"share,omitempty"`     // slices: the users that have a company share ONE *Company value
+	BatchSize int      `json:"batch_size,omitempty"` // Session{CreateBatchSize}
+	Scopes    bool     `json:"scopes,omitempty"`    // the call goes through db.Scopes(...)
 }
 
 type Input struct {
@@ -375,45 +385,117 @@ type Observed struct {
 	ErrText string `json:"err_text,omitempty"`
 }
 
+func users(op Op) []User {
+	us := make([]User, len(op.Users))
+	var shared *Company
+	for i, s := range op.Users {
+		us[i] = buildUser(s)
+		if op.Share && us[i].Company != nil {
+			if shared == nil {
+				shared = us[i].Company
+			}
+			us[i].Company = shared
+		}
+	}
+	return us
+}
+
+func strs(l []string) []interface{} {
+	out := make([]interface{}, len(l))
+	for i, s := range l {
+		out[i] = s
+	}
+	return out
+}
+
 func doOp(db *gorm.DB, op Op) error {
 	if op.FullSave {
 		db = db.Session(&gorm.Session{FullSaveAssociations: true})
+	}
+	if op.BatchSize > 0 {
+		db = db.Session(&gorm.Session{CreateBatchSize: op.BatchSize})
+	}
+	if op.Scopes {
+		db = db.Scopes(func(d *gorm.DB) *gorm.DB { return d })
+	}
+	if len(op.Sel) > 0 {
+		db = db.Select(op.Sel[0], strs(op.Sel[1:])...)
+	}
+	if len(op.Omit) > 0 {
+		db = db.Omit(op.Omit...)
+	}
+	if op.Returning {
+		db = db.Clauses(clause.Returning{})
+	}
+	if op.Unscoped {
+		db = db.Unscoped()
 	}
 	switch op.Kind {
 	case "create":
 		u := buildUser(op.Users[0])
 		return db.Create(&u).Error
 	case "create_slice":
-		us := make([]User, len(op.Users))
-		for i, s := range op.Users {
-			us[i] = buildUser(s)
-		}
+		us := users(op)
 		return db.Create(&us).Error
-	case "create_batches":
-		us := make([]User, len(op.Users))
-		for i, s := range op.Users {
-			us[i] = buildUser(s)
+	case "create_ptrs":
+		us := users(op)
+		ps := make([]*User, len(us))
+		for i := range us {
+			ps[i] = &us[i]
 		}
+		return db.Create(&ps).Error
+	case "create_batches":
+		us := users(op)
 		return db.CreateInBatches(&us, op.Batch).Error
+	case "create_batches_one": // CreateInBatches of a single struct
+		u := buildUser(op.Users[0])
+		return db.CreateInBatches(&u, op.Batch).Error
+	case "create_map":
+		return db.Model(&User{}).Create(map[string]interface{}{"name": op.Users[0].Name, "age": op.Users[0].Age}).Error
+	case "create_maps":
+		ms := make([]map[string]interface{}, len(op.Users))
+		for i, s := range op.Users {
+			ms[i] = map[string]interface{}{"name": s.Name, "age": s.Age}
+		}
+		return db.Model(&User{}).Create(&ms).Error
 	case "save":
 		u := buildUser(op.Users[0])
 		return db.Save(&u).Error
+	case "save_slice":
+		us := users(op)
+		return db.Save(&us).Error
 	case "updates":
 		u := buildUser(op.Users[0])
 		u.ID = 0
 		return db.Model(&User{ID: op.Target}).Updates(&u).Error
-	case "delete":
-		u := User{ID: op.Users[0].ID}
+	case "updates_map":
+		return db.Model(&User{ID: op.Target}).Updates(map[string]interface{}{"name": op.Users[0].Name, "age": op.Users[0].Age}).Error
+	case "update_col":
+		return db.Model(&User{ID: op.Target}).Update("name", op.Users[0].Name).Error
+	case "update_columns": // no hooks, no time tracking
+		return db.Model(&User{ID: op.Target}).UpdateColumns(User{Name: op.Users[0].Name, Age: op.Users[0].Age}).Error
+	case "updates_slice": // the model is a slice: every row of it is updated
+		ms := make([]User, len(op.Targets))
+		for i, id := range op.Targets {
+			ms[i] = User{ID: id}
+		}
+		return db.Model(&ms).Updates(User{Age: op.Users[0].Age, Name: op.Users[0].Name}).Error
+	case "delete", "delete_where", "delete_model", "delete_pet":
 		tx := db
 		if len(op.Select) == 1 && op.Select[0] == "*" {
 			tx = tx.Select(clause.Associations)
 		} else if len(op.Select) > 0 {
-			sel := make([]interface{}, len(op.Select)-1)
-			for i, s := range op.Select[1:] {
-				sel[i] = s
-			}
-			tx = tx.Select(op.Select[0], sel...)
+			tx = tx.Select(op.Select[0], strs(op.Select[1:])...)
 		}
+		switch op.Kind {
+		case "delete_where":
+			return tx.Where("id = ?", op.Users[0].ID).Delete(&User{}).Error
+		case "delete_model": // conditions from the primary key of the value, the model given apart
+			return tx.Model(&User{}).Delete(&User{ID: op.Users[0].ID}).Error
+		case "delete_pet": // soft delete (UPDATE) unless Unscoped
+			return tx.Delete(&Pet{ID: op.Users[0].ID}).Error
+		}
+		u := User{ID: op.Users[0].ID}
 		return tx.Delete(&u).Error
 	}
 	panic("unknown op " + op.Kind)
@@ -423,7 +505,12 @@ func doOp(db *gorm.DB, op Op) error {
 func runOnce(in Input, refDumps []string) (Observed, []string) {
 	e := getEnv()
 	reset(e, in.Seed)
+	e.rec.FakeVersion = ""
+	if in.Op.NoRet {
+		e.rec.FakeVersion = "3.30.0" // older than RETURNING support: INSERT via Exec + LastInsertId
+	}
 	db := openHandle(e.sqlDB)
+	e.rec.FakeVersion = ""
 	history(db, in.Pre)
 	st := &runState{dfault: in.DFault, hfault: in.HFault, fresh: e.fresh, wantDumps: refDumps == nil}
 	st.dumps = []string{dumpAll(e.fresh)}
@@ -618,20 +705,34 @@ func (g *gen) input() Input {
 	g.seed = in.Seed
 	nu, _, _, _, _, _ := seedCounts(in.Seed)
 	op := Op{}
-	switch c := r.Intn(20); {
-	case c < 5:
-		op.Kind, op.Users = "create", []UserSpec{g.user(true)}
+	many := func(lo, hi int) {
+		for i := r.Range(lo, hi); i > 0; i-- {
+			op.Users = append(op.Users, g.user(true))
+		}
+	}
+	pets := uint(0)
+	for _, u := range in.Seed {
+		pets += uint(len(u.Pets))
+	}
+	switch c := r.Intn(40); {
 	case c < 8:
-		op.Kind = "create_slice"
-		for i := r.Range(1, 3); i > 0; i-- {
-			op.Users = append(op.Users, g.user(true))
+		op.Kind, op.Users = "create", []UserSpec{g.user(true)}
+	case c < 12:
+		op.Kind = lib.Pick(r, []string{"create_slice", "create_slice", "create_ptrs"})
+		many(1, 3)
+		op.Share = r.Chance(1, 3)
+		if r.Chance(1, 4) {
+			op.BatchSize = r.Range(1, 2) // Create goes through CreateInBatches
 		}
-	case c < 10:
+	case c < 15:
 		op.Kind, op.Batch = "create_batches", r.Range(1, 2)
-		for i := r.Range(2, 4); i > 0; i-- {
-			op.Users = append(op.Users, g.user(true))
-		}
-	case c < 14:
+		many(2, 4)
+	case c < 16:
+		op.Kind, op.Batch, op.Users = "create_batches_one", r.Range(1, 2), []UserSpec{g.user(true)}
+	case c < 18:
+		op.Kind = lib.Pick(r, []string{"create_map", "create_maps"})
+		many(1, 2)
+	case c < 24:
 		op.Kind = "save"
 		u := g.user(true)
 		if nu > 0 && r.Chance(2, 3) {
@@ -644,29 +745,78 @@ func (g *gen) input() Input {
 			}
 		}
 		op.Users = []UserSpec{u}
-	case c < 16 && nu > 0:
+	case c < 26:
+		op.Kind = "save_slice" // upsert of every element
+		many(1, 2)
+		for i := range op.Users {
+			if nu > 0 && r.Bool() {
+				op.Users[i].ID = uint(r.Range(1, int(nu)))
+			}
+		}
+		if len(op.Users) == 2 && op.Users[0].ID != 0 && op.Users[0].ID == op.Users[1].ID {
+			op.Users[1].ID = 0
+		}
+	case c < 29 && nu > 0:
 		op.Kind, op.Target = "updates", uint(r.Range(1, int(nu)))
 		op.Users = []UserSpec{g.user(true)}
+	case c < 32 && nu > 0:
+		op.Kind, op.Target = lib.Pick(r, []string{"updates_map", "update_col", "update_columns"}), uint(r.Range(1, int(nu)))
+		op.Users = []UserSpec{{Name: g.name("r"), Age: r.Range(1, 90)}}
+		op.Returning = r.Chance(1, 3)
+	case c < 33 && nu > 0:
+		op.Kind = "updates_slice"
+		for id := uint(1); id <= nu; id++ {
+			op.Targets = append(op.Targets, id)
+		}
+		op.Users = []UserSpec{{Name: g.name("r"), Age: r.Range(1, 90)}}
+	case c < 35 && pets > 0:
+		op.Kind = "delete_pet"
+		op.Users = []UserSpec{{ID: uint(r.Range(1, int(pets)))}}
+		op.Unscoped = r.Bool()
+		if r.Bool() {
+			op.Select = lib.Pick(r, [][]string{{"*"}, {"Toys"}, {"Collar"}, {"Toys", "Collar"}})
+		}
 	case nu > 0:
-		op.Kind = "delete"
+		op.Kind = lib.Pick(r, []string{"delete", "delete", "delete_where", "delete_model"})
 		op.Users = []UserSpec{{ID: uint(r.Range(1, int(nu)))}}
-		switch r.Intn(4) {
-		case 0:
-		case 1:
-			op.Select = []string{"*"}
-		default:
-			for _, a := range []string{"Pets", "Profile", "Languages", "Toys"} {
-				if r.Bool() {
-					op.Select = append(op.Select, a)
+		op.Unscoped = r.Chance(1, 4)
+		op.Returning = r.Chance(1, 4)
+		if op.Kind != "delete_where" { // association deletes need the primary key in the value
+			switch r.Intn(4) {
+			case 0:
+			case 1:
+				op.Select = []string{"*"}
+			default:
+				for _, a := range []string{"Pets", "Profile", "Languages", "Toys", "Badge", "Notes"} {
+					if r.Chance(2, 5) {
+						op.Select = append(op.Select, a)
+					}
 				}
 			}
 		}
 	default:
 		op.Kind, op.Users = "create", []UserSpec{g.user(true)}
 	}
-	if op.Kind != "delete" && r.Chance(1, 4) {
-		op.FullSave = true
+	writes := strings.HasPrefix(op.Kind, "create") || strings.HasPrefix(op.Kind, "save") || op.Kind == "updates"
+	if writes && !strings.Contains(op.Kind, "map") {
+		if r.Chance(1, 4) {
+			op.FullSave = true
+		}
+		switch r.Intn(8) { // associations left out / picked
+		case 0:
+			op.Omit = []string{lib.Pick(r, []string{"Company", "Pets", "Languages", "Profile", "Home"})}
+		case 1:
+			op.Omit = []string{clause.Associations}
+		case 2:
+			op.Sel = []string{"Name", "Age", lib.Pick(r, []string{"Company", "Pets", "Languages", "Toys", "Notes"})}
+		case 3:
+			op.Sel = []string{"*"}
+		}
 	}
+	if strings.HasPrefix(op.Kind, "create") || op.Kind == "save" || op.Kind == "save_slice" {
+		op.NoRet = r.Chance(1, 4)
+	}
+	op.Scopes = r.Chance(1, 8)
 	in.Op = op
 	for i := r.Pick3(); i > 0; i-- {
 		in.Pre = append(in.Pre, lib.Pick(r, []string{"tosql", "dryrun", "skipdef", "session", "ctx", "prep"}))
